@@ -55,7 +55,7 @@ SemOfQ(qn) == CHOOSE s \in Sems : SemQ(s) = qn
   \* ---- fiber_semaphore_wait(wsem)
   procedure sem_wait(wsem)
   {
-   sw0: semc[wsem] := semc[wsem] - 1;        \* atomic_fetch_sub
+   sa0: semc[wsem] := semc[wsem] - 1;        \* atomic_fetch_sub
         if (semc[wsem] >= 0) {
           semSucc[wsem] := semSucc[wsem] + 1;
           rv[self] := 1;
@@ -64,8 +64,8 @@ SemOfQ(qn) == CHOOSE s \in Sems : SemQ(s) = qn
           semBlocked[wsem] := semBlocked[wsem] \cup {self};
           semPending[wsem] := semPending[wsem] \cup {self};
         };
-   sw1: call wait_mpmc(ThreadOf(self), wsem);
-   sw2: semSucc[wsem] := semSucc[wsem] + 1;
+   sa1: call wait_mpmc(ThreadOf(self), wsem);
+   sa2: semSucc[wsem] := semSucc[wsem] + 1;
         semPending[wsem] := semPending[wsem] \ {self};
         rv[self] := 1;
         return;
@@ -103,7 +103,7 @@ SemOfQ(qn) == CHOOSE s \in Sems : SemQ(s) = qn
         if (pprev < 0) {
           call wake_mpmc(ThreadOf(self), psem, 0);
    sx1:   if (rv[self] > 0) {
-            semc[psem] := semc[psem] + 1;    \* atomic_fetch_add
+   sx1a:    semc[psem] := semc[psem] + 1;    \* atomic_fetch_add
             rv[self] := 1;
             return;
           } else {
@@ -171,6 +171,12 @@ SemOfQ(qn) == CHOOSE s \in Sems : SemQ(s) = qn
     [] g = "mq" -> mq
 #! FAITHFUL
 , "semc", "mq"
+#! PINNED
+ @@ ("fiber_semaphore_wait:counter:RMW" :> {"sa0"})
+ @@ ("fiber_semaphore_trywait:counter:R" :> {"sy0"}) @@ ("fiber_semaphore_trywait:counter:CAS" :> {"sy1"})
+ @@ ("fiber_semaphore_post_internal:counter:R" :> {"sx0"}) @@ ("fiber_semaphore_post_internal:counter:RMW" :> {"sx1a"})
+ @@ ("fiber_semaphore_post_internal:counter:CAS" :> {"sx2"})
+ @@ ("fiber_semaphore_getvalue:counter:R" :> {"sv0"})
 #! CALLLABELS
 , mpmc_fifo_trypop |-> {"wk1"}
 #! FNPROC
